@@ -234,9 +234,9 @@ func genTerm(r *zsimrt.Rand) string {
 	case 6:
 		return f + ":" + pick(r, []string{">", ">=", "<", "<="}) + pick(r, gNums)
 	case 7:
-		return f + ":" + genValue(r) + "~" + pick(r, []string{"", "2", "1"})
+		return f + ":" + genValue(r) + "~" + pick(r, []string{"", "2", "1", "0", "-1", "0.5", "3.5", "2.5", "10"})
 	case 8:
-		return f + ":" + genValue(r) + "^" + pick(r, []string{"", "2", "0.5", "3.5"})
+		return f + ":" + genValue(r) + "^" + pick(r, []string{"", "2", "0.5", "3.5", "2.5", "0", "-1", "1", "10"})
 	case 9:
 		return pick(r, []string{"+", "-"}) + f + ":" + genValue(r)
 	case 10:
@@ -261,7 +261,7 @@ func genQuery(r *zsimrt.Rand, depth int) string {
 	case 6:
 		return genQuery(r, depth+1) + " " + genQuery(r, depth+1) // juxtaposition
 	case 7:
-		return "(" + genQuery(r, depth+1) + ")" + pick(r, []string{"^2", "~", "^"})
+		return "(" + genQuery(r, depth+1) + ")" + pick(r, []string{"^2", "~", "^", "~2", "^0.5", "~0.5", "^0", "~0"})
 	}
 	// occasionally malformed
 	return genQuery(r, depth+1) + pick(r, []string{" AND", " OR (", ")", ":[1 TO", " \"unterminated"})
